@@ -100,6 +100,20 @@ for mp in sorted(glob.glob(os.path.join(ROOT, "seeded", "*", "meta.json"))):
 if rows:
     out.append("\n| seeded change | property | what it does | what it needs to manifest | result of `./check` |\n|---|---|---|---|---|\n")
     out.extend(rows)
+# behaviour-preserving changes (false-alarm campaign)
+brows = []
+for mp in sorted(glob.glob(os.path.join(ROOT, "benign", "*", "meta.json"))):
+    m = json.load(open(mp))
+    brows.append("| `%s` | %s | %s | %s | %s | %s |\n" % (
+        os.path.basename(os.path.dirname(mp)), m.get("property", ""), m.get("kind", ""), m.get("summary", "").replace("|", "\\|"),
+        m.get("observable", "").replace("|", "\\|"), m.get("check_result", "not run yet")))
+if brows:
+    out.append("\n### 9.6 Behaviour-preserving changes (false-alarm campaign)\n\n")
+    out.append(read("notes/design9-benign-intro.md"))
+    silent = sum(1 for r in brows if "| silent" in r)
+    out.append("\n%d changes, %d left the property's quick check silent.\n" % (len(brows), silent))
+    out.append("\n| change | property | kind | what it does | what an observer could notice | result of `./check` |\n|---|---|---|---|---|---|\n")
+    out.extend(brows)
 out.append("\n" + read("notes/design9-limits.md"))
 
 text = read("DESIGN.md")
